@@ -10,3 +10,21 @@ pub(crate) fn frame_samples(f: &Frame) -> &[i32] {
 pub(crate) fn frame_shape(f: &Frame) -> (usize, usize, u32) {
     (f.channels, f.channel_len, f.bits_per_sample)
 }
+
+/// fills `f` as a decoded block of an abstract stream whose sample at position p in channel c is
+/// `value_at(c, p)`; positions start at `start`
+pub(crate) fn fill_abstract(f: &mut Frame, channels: usize, block: usize, start: u64) {
+    f.resize(16, channels, block);
+    let mut c = 0;
+    while c < channels {
+        let mut i = 0;
+        while i < block {
+            f.samples[c * block + i] = value_at(c, start + i as u64);
+            i += 1;
+        }
+        c += 1;
+    }
+}
+pub(crate) fn value_at(c: usize, p: u64) -> i32 {
+    (p as i32) * 8 + c as i32
+}
